@@ -23,6 +23,9 @@ using namespace PL;
 #define EXC_OPS "TC_RF", "TC_ANY_RF", "TC_STD_RF", "TC_TYPE_RF", "TC_RN", "TC_ANY_RN", "TC_STD_RN", "TC_TYPE_RN", "TC_RF2"
 #define META_OPS "ENABLE", "DISABLE", "STATE", "ACTION_ALT", "CONTROL_ALT", "RAW1", "CUSTOM_ANY", "SEPARATED_SEQ", "IF_THEN_ELSE_THEN", "IF_THEN"
 #define FILLERS "ONE_A", "OPT_ONE_A", "AT_ONE_A", "FAILURE", "EOF_"
+// rules whose analysis traits say "always consumes" by fiat (analyze_any_traits): a matcher that can succeed on the empty
+// string makes every repetition around them loop although the grammar is certified
+#define ANY_BY_FIAT "ROMM12_A", "INT_MAX7", "INT_U", "RAW"
 #define FILLERS_SMALL "ONE_A", "OPT_ONE_A"
 
 static std::vector< int > ops_of( const std::vector< const char* >& names )
@@ -58,7 +61,15 @@ int main( int argc, char** argv )
    if( thorough )
       fams.push_back( { "indirect_recursion_through_operator_pairs", { CORE_OPS, CORE_OPS3, CONV_OPS, CONV_OPS3, REP_OPS, EXC_OPS, META_OPS }, { FILLERS_SMALL, CORE_OPS, CONV_OPS, "REP2", "REP_MIN1", "RMM12", "REP_OPT2", "TC_RF", "TC_RN", "ENABLE", "STATE", "ACTION_ALT", "RAW1", "CUSTOM_ANY" }, 2, false } );
 
-   const std::string sigma = "ab[";
+   // (iii) every repetition / optional wrapper over the atoms that are "consuming" by fiat
+   fams.push_back( { "repetitions_over_atoms_consuming_by_fiat", { "STAR", "PLUS", "STAR2", "PLUS2", "UNTIL2", "LIST", "STAR_MUST", "REP_MIN1", "PAD", "STAR_PARTIAL1" }, { ANY_BY_FIAT, "ONE_A", "EOF_" }, 3, true } );
+
+   // (iv) the analysis keys its tables by the printed name of a rule: two different anonymous rules whose printed names agree up to
+   //      a character that is special in a compiler's type printout ( ; ] = , > ' ) must not share an entry (the benign one first):
+   //      n1 = star< sor< one< c >, one< 'a' > > > (atom), n2 = star< sor< one< c >, n1 > > loops because n1 is nullable
+   fams.push_back( { "rules_whose_printed_names_share_a_prefix", { "SEQ", "SOR" }, { "STAR_NA_SEMI", "STAR_SORX_SEMI", "STAR_NA_RBR", "STAR_SORX_RBR", "STAR_NA_EQ", "STAR_SORX_EQ", "STAR_NA_COMMA", "STAR_SORX_COMMA", "STAR_NA_GT", "STAR_SORX_GT", "STAR_NA_QUOTE", "STAR_SORX_QUOTE" }, 3, false } );
+
+   const std::string sigma = "ab[8";
    std::vector< std::string > inputs;
    for_inputs( sigma, 3, [ & ]( const std::string& s ) { inputs.push_back( s ); } );
    long prog_index = 0;
@@ -93,6 +104,19 @@ int main( int argc, char** argv )
                why = d.why;
             }
             ++vf::st.evaluations;
+            if( why < 0 ) {
+               // the reference terminates: so must the real code (a rule that wrongly succeeds without consuming makes a certified
+               // repetition spin; the reference, which implements the documented rule, cannot see that)
+               In in( buf.p, buf.p + buf.n, "src" );
+               const Real r = run_impl( Cfg{ 0, 1, 1, 1 }, in, 3000 );
+               ++vf::st.transitions;
+               if( r.kind == Real::FUEL ) {
+                  kind = 3;
+                  witness = s;
+                  confirmed = 1;
+                  break;
+               }
+            }
             if( why == 0 || why == 1 ) {
                // confirm on the real code: it must not terminate either
                In in( buf.p, buf.p + buf.n, "src" );
